@@ -1,31 +1,42 @@
 #!/bin/bash
 # selftest/harmless-all.sh [patch-name-glob]  — every must-pass edit against EVERY property's quick check (not only the
 # property named in the patch's file name): an edit that keeps all properties must keep all twenty checks quiet.
-# selftest/harmless-any/ holds behaviour-preserving refactors written by independent sub-agents (A<agent><n>-<kind>).
+# selftest/harmless-any/ holds behaviour-preserving refactors written by independent sub-agents (A<agent><n>-<kind>);
+# selftest/harmless-any/EXPECTED lists the refactors that change the STRUCTURE of a contracted function (a loop moved
+# into or out of a helper, a contracted function renamed, bookkeeping that carries a proof restated): alarms there are
+# inherent to contract-based verification (DESIGN 10.8) and do not fail the run.
+# Runs from a snapshot of the machinery and HARMLESS_JOBS scratch copies of /repo (default 4), removed afterwards.
 here="$(cd "$(dirname "$0")/.." && pwd)"
 scratch="$(mktemp -d /tmp/bklverif-harmless.XXXXXX)"
 trap 'rm -rf "$scratch"' EXIT
-rsync -a --exclude .git --exclude testdata /repo/ "$scratch/repo/"
-# run from a snapshot of the machinery (see run.sh): an hour-long run must not depend on what happens to /verif meanwhile
+jobs="${HARMLESS_JOBS:-4}"
 snap="$scratch/verif"; mkdir -p "$snap/work"
 for d in bin spec ledger contracts selftest known-findings.jsonl assumed-obligations.jsonl properties.jsonl; do cp -a "$here/$d" "$snap/"; done
 cp -a "$here/work/cache" "$snap/work/" 2>/dev/null
-export VERIF_DIR="$snap"
-fail=0; n=0
+for j in $(seq 1 "$jobs"); do rsync -a --exclude .git --exclude testdata /repo/ "$scratch/repo$j/"; done
+list="$scratch/list"; : > "$list"
 for p in "$here"/selftest/harmless/${1:-*}.patch "$here"/selftest/harmless-any/${1:-*}.patch; do
-  [ -e "$p" ] || continue
-  b="$(basename "$p" .patch)"; n=$((n+1))
-  if ! patch -s -p1 -d "$scratch/repo" < "$p"; then echo "SELFTEST-BROKEN $b: patch does not apply"; fail=1; continue; fi
-  if ! ( cd "$scratch/repo" && GOFLAGS=-mod=mod GOPROXY=off go build ./... ) >/dev/null 2>&1; then echo "SELFTEST-BROKEN $b: does not build"; fail=1; fi
-  bad=""
+  [ -e "$p" ] && echo "$p" >> "$list"
+done
+one() {
+  slot="$1"; p="$2"; b="$(basename "$p" .patch)"; repo="$scratch/repo$slot"
+  if ! patch -s -p1 -d "$repo" < "$p"; then echo "SELFTEST-BROKEN $b: patch does not apply"; return; fi
+  if ! ( cd "$repo" && GOFLAGS=-mod=mod GOPROXY=off go build ./... ) >/dev/null 2>&1; then echo "SELFTEST-BROKEN $b: does not build"; fi
+  bad=""; det=""
   for i in $(seq -w 1 20); do
-    out="$(VERIF_REPO="$scratch/repo" "$snap/bin/bklverif" check "C$i" quick 2>&1)"; rc=$?
-    if [ $rc -ne 0 ]; then bad="$bad C$i"; echo "$out" | grep '^VIOLATION' | sed 's/replay=[^ ]* //' | head -3 | sed "s/^/    /"; fi
+    out="$(VERIF_DIR="$snap" VERIF_REPO="$repo" "$snap/bin/bklverif" check "C$i" quick 2>&1)"; rc=$?
+    if [ $rc -ne 0 ]; then bad="$bad C$i"; det="$det$(echo "$out" | grep '^VIOLATION' | sed 's/replay=[^ ]* //' | head -3 | sed "s/^/    /")"$'\n'; fi
   done
-  patch -s -R -p1 -d "$scratch/repo" < "$p"
+  patch -s -R -p1 -d "$repo" < "$p"
   if [ -z "$bad" ]; then echo "ok   quiet on all 20  $b";
   elif grep -qx "$b" "$here/selftest/harmless-any/EXPECTED" 2>/dev/null; then echo "EXPECTED-ALARM (structure of a contracted function changed, DESIGN 10.8)  $b:$bad";
-  else echo "FALSE-ALARM  $b:$bad"; fail=1; fi
+  else printf '%s' "$det"; echo "FALSE-ALARM  $b:$bad"; fi
+}
+for j in $(seq 1 "$jobs"); do
+  ( awk -v j="$j" -v n="$jobs" '(NR-1)%n==j-1' "$list" | while read -r p; do one "$j" "$p"; done ) > "$scratch/out$j" &
 done
-echo "harmless-all: $n edits, fail=$fail"
-exit $fail
+wait
+cat "$scratch"/out*
+n=$(wc -l < "$list"); bad=$(cat "$scratch"/out* | grep -c "^FALSE-ALARM\|^SELFTEST-BROKEN")
+echo "harmless-all: $n edits, fail=$([ "$bad" -gt 0 ] && echo 1 || echo 0) ($bad not as expected)"
+[ "$bad" -eq 0 ]
